@@ -163,7 +163,11 @@ def search(pid, unit, failure, tier='quick', seed=0, deadline=None):
 def replay(w):
     """re-run a stored witness; True if it still fails"""
     try:
-        data = bytes.fromhex(w['input_hex']) if w.get('input_hex') else w.get('input_utf8_lossy', '').encode()
+        if w.get('input_gen'):
+            g = w['input_gen']
+            data = (g['prefix'] + g['open'] * g['n'] + g.get('mid', '') + g.get('close', '') * g['n'] + g['suffix']).encode()
+        else:
+            data = bytes.fromhex(w['input_hex']) if w.get('input_hex') else w.get('input_utf8_lossy', '').encode()
         r = replayrun.run(w['mode'], data, timeout=30)
         if w['mode'] == 'delta' and 'expect_result' not in w:
             return _crashes(r)
